@@ -30,9 +30,9 @@ Definition ex_prog : program :=
   mkProgram [] []
     [mkFn 3 [(0, u8); (1, u8)] u8
        [St (SLet (Pat (PId 2) m0 u8) (Ex (EOp OAdd (Ex (EId 0) m0 u8) (Ex (EId 1) m0 u8)) (mkMeta 0 41 0 46) u8)) m0;
-        St (SExpr (Ex (EIf (Ex (EOp OGt (Ex (EId 2) m0 u8) (Ex (ENumU 10) m0 u8)) m0 TBool)
-                          (Ex (EOp OSub (Ex (EId 2) m0 u8) (Ex (ENumU 10) m0 u8)) m0 u8)
-                          (Ex (EOp OMul (Ex (EId 2) m0 u8) (Ex (ENumU 2) m0 u8)) m0 u8)) m0 u8)) m0]]
+        St (SExpr (Ex (EIf (Ex (EOp OGt (Ex (EId 2) m0 u8) (Ex (ENumU 10 8) m0 u8)) m0 TBool)
+                          (Ex (EOp OSub (Ex (EId 2) m0 u8) (Ex (ENumU 10 8) m0 u8)) m0 u8)
+                          (Ex (EOp OMul (Ex (EId 2) m0 u8) (Ex (ENumU 2 8) m0 u8)) m0 u8)) m0 u8)) m0]]
     [] 3.
 
 Theorem C01_spec_example :
